@@ -51,6 +51,8 @@ func (f *fn) call(c *ast.CallExpr) Val {
 				switch v.K {
 				case KSlice:
 					return Val{S: v.S + ".len", K: KNat, N: -1}
+				case KList, KBytes:
+					return Val{S: paren(v.S) + ".length", K: KNat, N: -1}
 				}
 				f.fail(c, "len of a value of unsupported kind")
 			case "make":
@@ -58,12 +60,23 @@ func (f *fn) call(c *ast.CallExpr) Val {
 					n, _ := f.natIndex(c.Args[1]) // a negative length is a panic
 					return Val{S: fmt.Sprintf("(List.replicate %s (0 : %s))", paren(n), leanKindType(ek)), K: KList, E: ek, N: -1}
 				}
+				// make(T, 0, cap) with constant bounds 0 ≤ cap: no element (the capacity is not observable)
+				if ek, ok := listElem(f.info.TypeOf(c.Args[0])); ok && len(c.Args) == 3 {
+					l, ok1 := constInt(f.info, c.Args[1])
+					cp, ok2 := constInt(f.info, c.Args[2])
+					if ok1 && ok2 && l == 0 && cp >= 0 {
+						return Val{S: fmt.Sprintf("([] : List %s)", leanKindType(ek)), K: KList, E: ek, N: -1}
+					}
+				}
 				f.fail(c, "make of %s", f.info.TypeOf(c.Args[0]))
 			case "append":
 				if len(c.Args) == 2 && !c.Ellipsis.IsValid() {
 					l := f.expr(c.Args[0])
 					v := f.expr(c.Args[1])
-					if l.K == KList && (v.K == l.E || (l.E == KInt && v.K == KNat)) {
+					if l.K == KList && l.E == KStruct && v.K == KStruct && v.T == l.T {
+						return Val{S: fmt.Sprintf("(%s ++ [%s])", paren(l.S), v.S), K: KList, E: KStruct, T: l.T, N: -1}
+					}
+					if l.K == KList && l.E != KStruct && (v.K == l.E || (l.E == KInt && v.K == KNat)) {
 						return Val{S: fmt.Sprintf("(%s ++ [%s])", paren(l.S), f.coerce(c, v, l.E)), K: KList, E: l.E, N: -1}
 					}
 				}
@@ -96,11 +109,23 @@ func (f *fn) call(c *ast.CallExpr) Val {
 			f.fail(c, "binary.LittleEndian.%s of a short array", callee.Name())
 		}
 		t := f.tmp()
-		f.w("let %s ← GoDec.%sGo %s", t, name, v.S)
+		f.w("let %s ← %s", t, f.lift(fmt.Sprintf("GoDec.%sGo %s", name, v.S)))
 		return Val{S: t, K: k, N: -1}
 	}
+	switch fullName(callee) {
+	case "crypto/hmac.Equal":
+		// subtle.ConstantTimeCompare: true exactly when the two byte strings have the same length and contents
+		a, b := f.bytesOf(c, f.expr(c.Args[0])), f.bytesOf(c, f.expr(c.Args[1]))
+		return Val{S: fmt.Sprintf("(%s == %s)", paren(a), paren(b)), K: KBool, N: -1}
+	}
 	if callee == nil {
+		if v, ok := f.extCall(c); ok {
+			return v
+		}
 		f.fail(c, "call of %s (not a statically known function)", types.ExprString(c.Fun))
+	}
+	if v, ok := f.extCall(c); ok {
+		return v
 	}
 	// a pure helper: value receiver or package-level function, basic parameters, one basic result
 	return f.pureCall(c, callee)
@@ -113,20 +138,43 @@ func (f *fn) conversion(c *ast.CallExpr, to types.Type) Val {
 		if v.K == KSlice {
 			return Val{S: v.S + ".vis", K: KBytes, N: v.N}
 		}
+		if v.K == KList && v.E == KI32 {
+			// string([]rune): the UTF-8 encoding of the runes
+			return Val{S: fmt.Sprintf("(GoDec.stringOfRunes %s)", paren(v.S)), K: KBytes, N: -1}
+		}
 		f.fail(c, "conversion to string")
 	}
 	k, _, ok := f.kindOfType(to)
 	if !ok {
 		f.fail(c, "conversion to %s", to)
 	}
+	if k == KInt {
+		if v, ok := f.floatIdiom(c, arg); ok {
+			return v
+		}
+	}
 	v := f.expr(arg)
 	switch {
 	case k == v.K:
 		return v
+	// signed fixed-width integers: Lean's IntN / UIntN conversions are Go's (same bits, truncation, sign extension)
+	case swidth(k) > 0 && width(v.K) == swidth(k): // uintN -> intN: same bits
+		return Val{S: fmt.Sprintf("(%s).to%s", v.S, leanKindType(k)), K: k, N: -1}
+	case width(k) > 0 && swidth(v.K) == width(k): // intN -> uintN: same bits
+		return Val{S: fmt.Sprintf("(%s).to%s", v.S, leanKindType(k)), K: k, N: -1}
+	case swidth(k) > 0 && swidth(v.K) > 0: // truncation or sign extension
+		return Val{S: fmt.Sprintf("(%s).to%s", v.S, leanKindType(k)), K: k, N: -1}
+	case swidth(k) > 0 && width(v.K) > 0 && width(v.K) < swidth(k): // zero extension into a wider signed type: exact
+		return Val{S: fmt.Sprintf("(%s.ofNat (%s).toNat)", leanKindType(k), v.S), K: k, N: -1}
+	case k == KInt && swidth(v.K) > 0:
+		return Val{S: fmt.Sprintf("(%s).toInt", v.S), K: KInt, N: -1}
 	case width(k) > 0 && width(v.K) > 0:
 		return Val{S: fmt.Sprintf("(%s).to%s", v.S, leanKindType(k)), K: k, N: -1}
 	case width(k) > 0 && v.K == KNat:
 		return Val{S: fmt.Sprintf("(%s.ofNat %s)", leanKindType(k), paren(v.S)), K: k, N: -1}
+	case width(k) > 0 && v.K == KInt:
+		// truncation of a two's-complement int: the residue modulo 2^width (Lean's `%` on ℤ with a positive modulus is non-negative)
+		return Val{S: fmt.Sprintf("(%s.ofNat (Int.toNat (%s %% %d)))", leanKindType(k), paren(v.S), int64(1)<<uint(width(k))), K: k, N: -1}
 	case k == KInt && width(v.K) > 0:
 		return Val{S: fmt.Sprintf("(%s).toNat", v.S), K: KNat, N: -1}
 	case k == KInt && (v.K == KNat || v.K == KInt):
